@@ -31,7 +31,7 @@ func RandomScript(rng *rand.Rand, idx int, nproofs int) tf.Script {
 	var steps []tf.M
 	height := 2 // after the activation block
 	nreq := 0
-	var resolved []int         // ids with a result, and the height from which a proof can show them
+	var resolved []int // ids with a result, and the height from which a proof can show them
 	resolvedAt := map[int]int{}
 	type pend struct{ id, min int }
 	var pending []pend
